@@ -171,6 +171,8 @@ pub enum Act {
     User { fallible: bool, style: Style },
     /// `=> cx.unit(id)` (unit-typed nonterminal)
     UnitUser,
+    /// `=> ()` (unit-typed nonterminal, nothing logged)
+    UnitLit,
 }
 
 #[derive(Clone, Copy, Debug, PartialEq, Eq, Hash)]
@@ -243,6 +245,12 @@ pub struct PrintCfg {
     pub ascent: bool,
 }
 
+impl PrintCfg {
+    pub fn new(lalr: bool, ascent: bool) -> PrintCfg {
+        PrintCfg { lalr, ascent }
+    }
+}
+
 impl GSpec {
     pub fn loc_ty(&self) -> LocTy {
         match self.lexer {
@@ -267,7 +275,7 @@ impl GSpec {
             Ty::StrRef => "&'input str".into(),
             Ty::Recov => match self.lexer {
                 Lexer::Extern { .. } => format!("ErrorRecovery<{}, Tok, String>", self.loc_ty_name()),
-                Lexer::Builtin => "ErrorRecovery<usize, Token<'input>, String>".into(),
+                Lexer::Builtin => "ErrorRecovery<usize, lalrpop_util::lexer::Token<'input>, String>".into(),
             },
             Ty::Tup(v) => format!("({})", v.iter().map(|x| self.print_ty(x)).collect::<Vec<_>>().join(", ")),
             Ty::Vec(x) => format!("Vec<{}>", self.print_ty(x)),
@@ -339,6 +347,7 @@ impl GSpec {
         match &alt.act {
             Act::Default => String::new(),
             Act::UnitUser => format!(" => cx.unit({})", Self::action_id(ni, ai)),
+            Act::UnitLit => " => ()".to_string(),
             Act::User { fallible, style } => {
                 let id = Self::action_id(ni, ai);
                 let name = self.action_name(ni, ai);
@@ -391,9 +400,6 @@ impl GSpec {
     pub fn print(&self, pc: PrintCfg) -> String {
         let mut o = String::new();
         o.push_str("use crate::rt::*;\n");
-        if self.lexer == Lexer::Builtin {
-            o.push_str("use lalrpop_util::lexer::Token;\n");
-        }
         if pc.lalr {
             o.push_str("#[LALR]\n");
         }
@@ -960,6 +966,7 @@ impl<'a> Elab<'a> {
                 }
             }
             Act::UnitUser => Sem::UnitUser { id: GSpec::action_id(item, ai) },
+            Act::UnitLit => Sem::Unit,
             Act::User { fallible, .. } => {
                 let named = binds.iter().any(|b| matches!(b, Bind::Name(..) | Bind::Tuple(..)));
                 let mut args = vec![];
